@@ -14,6 +14,7 @@ func init() {
 		emitFunc(g, "newV2", findFunc(parseFile("pkg/cgroup/cgroup_linux.go"), "", "newV2"))
 		emitFunc(g, "openExistingV1", findFunc(parseFile("pkg/cgroup/cgroup_linux.go"), "", "openExistingV1"))
 		emitFunc(g, "copyFromParent", findFunc(parseFile("pkg/cgroup/v1_linux.go"), "", "copyCgroupPropertyFromParent"))
+		emitFunc(g, "newSubV1", findFunc(parseFile("pkg/cgroup/v1_linux.go"), "V1", "New"))
 		emitFunc(g, "initCpuset", findFunc(parseFile("pkg/cgroup/v1_linux.go"), "", "initCpuset"))
 	})
 }
